@@ -31,6 +31,23 @@ func c15Files(c *Ctx, sh *Shape) []c15file {
 	out = append(out, c15file{Name: "f1", Recs: ex, Part: RandomPartition(len(ex), rng), Page: 3, Codec: 0})
 	rd := GenRecords(sc, GenRandom, 5+rng.Intn(40), rng, false)
 	out = append(out, c15file{Name: "f2", Recs: rd, Part: RandomPartition(len(rd), rng), Page: 2, Codec: 1})
+	// one shape in eight: a file of many one-record row groups, whose footer is larger than
+	// 64 KiB (one shape in 64: larger than 1 MiB); the struct is then regenerated from THIS file
+	var n int
+	if _, err := fmt.Sscanf(sh.Name, "c%d", &n); err == nil && n%8 == 3 {
+		want := 72 << 10
+		if n%64 == 3 {
+			want = 1100 << 10
+		}
+		groups := want/(34*len(sc.Leaves)) + 1
+		recs := make([]*dremel.Tree, groups)
+		part := make([]int, groups)
+		for i := range recs {
+			recs[i] = st[i%len(st)]
+			part[i] = 1
+		}
+		out = append(out, c15file{Name: "f3", Recs: recs, Part: part, Page: 1000, Codec: 0})
+	}
 	return out
 }
 
